@@ -26,3 +26,22 @@ PROPS = {
         ],
     ),
 }
+
+PROPS["C11"] = dict(
+    verus_units=["valid"],
+    technique="Verus contracts on all of validation/src/header/mod.rs against a consensus-rule spec (accept_spec)",
+    level_text="unbounded deductive proof (all header chains, networks, candidates, times) that validate_header accepts iff the consensus rules "
+               "listed in the statement hold and otherwise reports the first failing rule; loops (median-time-past walk, min-difficulty walk-back) by invariant",
+    level_note="rust-bitcoin is uninterpreted (target/from_compact/validate_pow/from_next_work_required incl. the 4x clamp and 256-bit arithmetic, hashing); "
+               "store is an abstract chain with injective hashes; heights < 2^32-1, times < 2^32-1200; 2h rule's Duration arithmetic proved by Kani, assumed in Verus",
+    explanation="validate_header, is_timestamp_valid, get_next_target, find_next_difficulty_in_chain, compute_next_difficulty and constants.rs are extracted "
+                "verbatim and proved equal to accept_spec / median_time_past / required_target / walk_back / retarget_bits.",
+    unverified_links=[
+        "canister/src/validation.rs: the canister's HeaderStore implementation (unstable chain + announced headers + stable store) is assumed to satisfy the abstract store contract (chain_wf, lookups by hash/height)",
+        "rust-bitcoin CompactTarget::from_next_work_required (4x clamp, pow limit) and Header::validate_pow are dependencies: uninterpreted",
+    ],
+    assumptions=COMMON_ASSUMPTIONS + [
+        "block hashes are injective along the header chain", "chain heights < 2^32-1, header times < 2^32-1200, current time < 2^63 s",
+        "HeaderStore contract: height() is the height of the tip the candidate extends (its parent, if known, is that tip)",
+    ],
+)
